@@ -263,8 +263,17 @@ pub fn run(cfg: &Cfg, rep: &mut Report) {
                 }
             }
         }
-        // complement and the other syntactic positions, for the canonical spelling
+        // complement and the other syntactic positions, for the canonical spelling; the escape
+        // together with other class atoms (a member of the set and a non-member, as \u{..} escapes)
+        let member = base.ranges().first().map(|r| r.0).unwrap_or(0x41);
+        let outsider = sc.subtract(&base).ranges().first().map(|r| r.0).unwrap_or(0x41);
+        let one = |c: u32| RangeSet::from_ranges(vec![(c, c)]);
         for (pat, flags, want, what) in [
+            (format!("[\\P{{{}}}\\u{{{:X}}}]", val.canonical, member), "u", sc.subtract(&base).union(&one(member)).intersect(&sc), "[\\P{..}x] is not the complement plus x"),
+            (format!("[\\u{{{:X}}}\\P{{{}}}]", member, val.canonical), "u", sc.subtract(&base).union(&one(member)).intersect(&sc), "[x\\P{..}] is not the complement plus x"),
+            (format!("[^\\P{{{}}}\\u{{{:X}}}]", val.canonical, member), "u", base.subtract(&one(member)), "[^\\P{..}x] is not the set minus x"),
+            (format!("[\\p{{{}}}\\u{{{:X}}}]", val.canonical, outsider), "u", base.union(&one(outsider)).intersect(&sc), "[\\p{..}y] is not the set plus y"),
+            (format!("[^\\p{{{}}}\\u{{{:X}}}]", val.canonical, outsider), "u", sc.subtract(&base).subtract(&one(outsider)), "[^\\p{..}y] is not the complement minus y"),
             (format!("\\P{{{}}}", val.canonical), "u", sc.subtract(&base), "\\P{..} is not the complement of \\p{..}"),
             (format!("\\p{{{}}}", val.canonical), "v", base.clone(), "\\p{..} under v differs from u"),
             (format!("[\\p{{{}}}]", val.canonical), "u", base.clone(), "[\\p{..}] differs from \\p{..}"),
